@@ -1198,6 +1198,29 @@ def site_rewrite(ctx, sf, it, rule, anchor, nth, ropts, what):
         ctx.fire("N6", sf, toks[m0].start, sf.text[toks[m0].start:toks[k].end])
     elif rule == "N5":
         edits += rewrite_for_to_while(ctx, sf, a, b, ropts, what)
+    elif rule == "N15":
+        # `for V in E.chars() { body }` -> `{ let V__v = vx_chars(E); let mut V__c: usize = 0; while V__c < V__v.len() { let V = V__v[V__c]; V__c += 1; body } }`
+        # (vx_chars: ASSUMED total stub String -> Vec<char>, the characters in order; break/continue keep their meaning
+        # only when the body has no `continue` -- checked)
+        k = a
+        if toks[k].text != "for" or toks[k + 2].text != "in":
+            raise LostAnchor(f"{what}: N15 anchor must start at `for V in`")
+        var = toks[k + 1].text
+        j = k + 3
+        while toks[j].text != "{":
+            j = pair[j] + 1 if toks[j].text in ("(", "[") else j + 1
+        body_open, body_close = j, pair[j]
+        if not (toks[body_open - 1].text == ")" and toks[body_open - 2].text == "(" and toks[body_open - 3].text == "chars" and toks[body_open - 4].text == "."):
+            raise LostAnchor(f"{what}: N15 needs `for V in E.chars()`")
+        if any(toks[m].text == "continue" for m in range(body_open, body_close)):
+            raise UnitSyntaxError("N15: body with `continue` not supported")
+        E = sf.text[toks[k + 3].start:toks[body_open - 5].end]
+        head = f"{{ let {var}__v = vx_chars({E}); let mut {var}__c: usize = 0; while {var}__c < {var}__v.len() "
+        first = f" let {var} = {var}__v[{var}__c]; {var}__c += 1;"
+        edits += [Edit(toks[k].start, toks[body_open].start, head),
+                  Edit(toks[body_open].end, toks[body_open].end, first, prio=-1),
+                  Edit(toks[body_close].end, toks[body_close].end, " }")]
+        ctx.fire("N15", sf, toks[k].start, f"for {var} in ({E}).chars()")
     elif rule == "O1":
         # opaque statement: replace anchor..(through `;`) by a call to an external_body stub
         k = b
@@ -1404,6 +1427,7 @@ def build_item(ctx, unit, spec):
             c += 1
         ty = sf.text[toks[c + 1].start:toks[k - 1].end]
         zero = re.sub(r"\b[ui](?:8|16|32|64|128|size)\b", "0", ty)
+        zero = re.sub(r"\bchar\b", "' '", zero)
         edits.append(Edit(toks[k + 1].start, toks[it.tok_hi - 1].start, zero))
         ctx.fire("T4", sf, toks[k].start, f"initializer of opaque table {it.name} elided")
     if spec.opts.get("derive_only"):
